@@ -12,7 +12,8 @@ Layers (each stands alone):
                                             `Framer.change/reactivate` (defect D3 is reproduced as written)
      The code transcribed is /repo with the fix commits D3b (`Suspender.action` / `deactivize` test
      `aux.main is self._act.frame`: `notOwner`) and D3d (`Framer.checkEnter` / `Frame.checkEnter` /
-     `Framer.checkStart` thread one list `claimed` through a check: `allC`, `auxClaim`, `checkEnterC`).
+     `Framer.checkStart` thread one list `claimed` through a check: `allC`, `auxClaim`, `checkEnterC`) and D3e
+     (`Suspender.action` does nothing for an auxiliary that is also a plain auxiliary of its frame).
   5. a minimal scheduler loop             — `Skedder.run` for taskers whose period is 0 (run at every tick)
 
 Conventions
@@ -467,7 +468,8 @@ def suspendRun (i : Frid) (aux : Frid) (s : St W) : Except Err (Bool × St W) :=
 /-- `Suspender.action(needs, main, aux, human)`; `i = main.framer`, `f = main` = the act's frame -/
 def suspend (i : Frid) (f : Fid) (needs : List NeedId) (aux : Frid) (tracts : List Act) (s : St W) :
     Except Err (Bool × St W) :=
-  if (s.fr aux).done then suspendStart P sem lo i f needs aux tracts s
+  if (P.frame f).auxes.contains aux then .ok (false, s)    -- also a plain auxiliary of this frame (fix D3e)
+  else if (s.fr aux).done then suspendStart P sem lo i f needs aux tracts s
   else if notOwner P aux f s then .ok (false, s)
   else suspendRun P lo i aux s
 
